@@ -111,6 +111,7 @@ class Env:
         self.max_wait_retries = max_wait_retries
         self.bus_log: list = []
         self.delayed: dict[int, bool] = {}   # row id -> was pushed with a delay (recorded at first sight)
+        self.due: dict[int, float] = {}      # row id -> the deliver_at it was pushed with (first sight; deliver() rewrites the column)
         self._hc = None
         install_connect_wrapper()
         self._open(first=True)
@@ -429,10 +430,12 @@ class Env:
                 try:
                     da = datetime.fromisoformat(r["deliver_at"])
                     self.delayed[r["id"]] = (da - datetime.now(UTC)) > timedelta(seconds=3)
+                    self.due[r["id"]] = da.timestamp()
                 except Exception:
                     self.delayed[r["id"]] = False
+                    self.due[r["id"]] = 0.0
             out.append({"id": r["id"], "type": r["message_type"], "payload": p, "attempts": r["attempts"],
-                        "delayed": self.delayed[r["id"]],
+                        "delayed": self.delayed[r["id"]], "due": self.due.get(r["id"], 0.0),
                         "deliver_at": r["deliver_at"], "locked_until": r["locked_until"], "max_attempts": r["max_attempts"]})
         return out
 
